@@ -105,6 +105,12 @@ class Classifier:
             pk = self._unpack_from_private(e.id, depth)
             if pk is not None:
                 return pk
+            # `a, b = (x, y)`: component-wise
+            comp = [st.value.elts[i] for st in walk_local(self.fi.node) if isinstance(st, ast.Assign) and len(st.targets) == 1 and isinstance(st.targets[0], ast.Tuple) and isinstance(st.value, ast.Tuple) and len(st.value.elts) == len(st.targets[0].elts)
+                    for i, t_ in enumerate(st.targets[0].elts) if isinstance(t_, ast.Name) and t_.id == e.id]
+            other = [1 for k_, v_ in self.defs.get(e.id, []) if not ("unpack" in k_ and isinstance(v_, ast.Tuple))]
+            if comp and not other:
+                return worst([self.classify(c_, depth + 1) for c_ in comp])
             for k, v in self.defs.get(e.id, []):
                 if k == "param":
                     if self._is_raw_callback_param(e.id):
